@@ -6,7 +6,7 @@ import circuitgraph as cg
 
 RULE = ("unroll: seeded random lint-clean acyclic blackbox-free circuits (<=4 inputs) x every injective pairing of up "
         "to 2 outputs with inputs (incl. pairings whose key order and value order differ) x n in 1..4; "
-        "sequential_unroll: random circuits with 1..3 flops of one blackbox type (pins clk,d,q or clk,rst,d,q,qn) x "
+        "sequential_unroll: random circuits with 1..3 flops of one blackbox type (pins clk,d,q or clk,rst|cdn|rq,d,q,qn; ignore_pins as a list or a bare string) x "
         "add_flop_outputs x initial_values in {None,'0','1',per-flop dict} x remove_unloaded x ignore_pins; all "
         "initial states and all input sequences are simulated; non-trivial = n >= 2 and a state pair exists"
         "; plus: a node that is input and output paired with itself, ordinary io named like flop pins (sum_q, in_d), names derived from the library's own naming templates, shuffled node insertion order")
@@ -42,16 +42,17 @@ def cases(tier, seed):
     for i in range(150 if tier == "quick" else 3000):
         wide = rng.random() < 0.4
         nff = rng.randint(1, 3)
-        cd = _seq_circuit(rng, nff, wide)
+        rp = rng.choice(["rst", "rst", "cdn", "rq"])   # reset pin names that contain the d / q port names as substrings
+        cd = _seq_circuit(rng, nff, wide, rp)
         iv = rng.choice([None, "0", "1", "dict"])
         if iv == "dict":
             iv = {f"ff{k}": rng.choice(["0", "1"]) for k in range(nff) if rng.random() < 0.7}
         yield {"f": "sequential_unroll", "c": cd, "n": rng.randint(1, 3), "afo": rng.random() < 0.5, "iv": iv,
-               "ru": rng.random() < 0.6, "ignore": (["rst"] if wide and rng.random() < 0.5 else None), "wide": wide}
+               "ru": rng.random() < 0.6, "ignore": (rng.choice([[rp], rp]) if wide and rng.random() < 0.5 else None), "wide": wide}
 
 
-def _seq_circuit(rng, nff, wide):
-    pins_in = ["clk", "rst", "d"] if wide else ["clk", "d"]
+def _seq_circuit(rng, nff, wide, rp="rst"):
+    pins_in = ["clk", rp, "d"] if wide else ["clk", "d"]
     pins_out = ["q", "qn"] if wide else ["q"]
     nodes = [["clk", "input", False]]
     edges = []
@@ -62,7 +63,7 @@ def _seq_circuit(rng, nff, wide):
         nodes.append([f"i{k}", "input", rng.random() < 0.15])
         avail.append(f"i{k}")
     if wide:
-        nodes.append(["rst", "input", False])
+        nodes.append([rp, "input", False])
     for k in range(nff):
         inst = f"ff{k}"
         bbs[inst] = ["dff", pins_in, pins_out]
@@ -74,7 +75,7 @@ def _seq_circuit(rng, nff, wide):
         edges.append([f"{inst}.q", f"q{k}"])
         edges.append(["clk", f"{inst}.clk"])
         if wide:
-            edges.append(["rst", f"{inst}.rst"])
+            edges.append([rp, f"{inst}.{rp}"])
         avail.append(f"q{k}")
     gates = []
     for k in range(rng.randint(1, 4)):
@@ -89,7 +90,7 @@ def _seq_circuit(rng, nff, wide):
     if wide and gates and rng.random() < 0.4:
         # the reset NET (named exactly like the pin it feeds) is also used by ordinary logic
         nodes.append(["grst", "or", True])
-        edges += [["rst", "grst"], [gates[0], "grst"]]
+        edges += [[rp, "grst"], [gates[0], "grst"]]
     if not any(r[2] for r in nodes):
         nodes[-1][2] = True
     if rng.random() < 0.3:
